@@ -122,9 +122,15 @@ type Scenario struct {
 	Bursts   int    `json:"bursts"`
 	Sizes    []int  `json:"sizes"`
 	GapUs    int    `json:"gap_us"`
+	// Match puts a data-reading matcher in front of the recording handler, so the first datagram is taken in
+	// by the matching phase's prefetch (one chunk of 2048 bytes) before the handler reads.
+	Match bool `json:"match,omitempty"`
 }
 
 var sizeChoices = []int{9, 10, 64, 1200, 2048, 2049, 8999, 9000}
+
+// boundary sizes: a datagram exactly as large as the buffer it is read into (handler buffer or prefetch chunk)
+var boundarySizes = []int{64, 1000, 2048, 2047, 4096}
 
 func genScenario(seed int64, i int) *Scenario {
 	r := fw.Rand(seed, "c09", i)
@@ -142,6 +148,14 @@ func genScenario(seed int64, i int) *Scenario {
 	s.GapUs = []int{0, 0, 200, 3000}[r.Intn(4)]
 	if s.Handler == "echo" || s.Handler == "proxy" {
 		s.EndAfter, s.BufSize = 0, 9000
+	}
+	s.Match = r.Intn(3) == 0
+	if r.Intn(3) == 0 {
+		s.Sizes[r.Intn(len(s.Sizes))] = boundarySizes[r.Intn(len(boundarySizes))]
+		if r.Intn(2) == 0 {
+			s.Sizes = s.Sizes[:1] // only that size
+			s.Sizes[0] = boundarySizes[r.Intn(len(boundarySizes))]
+		}
 	}
 	if s.Handler == "proxy" {
 		// The relay pumps the client side with io.Copy into io.Discard (8 KiB buffer), so a datagram larger than
@@ -216,8 +230,12 @@ func routesFor(s *Scenario) string {
 	case "proxy":
 		return fmt.Sprintf(`[{"handle":[{"handler":"proxy","upstreams":[{"dial":["udp/%s"]}]}]}]`, startUDPEcho())
 	}
-	return drive.J([]any{map[string]any{"handle": []any{map[string]any{"handler": "verif_udp", "name": "u", "end_after": s.EndAfter,
-		"delay_us": s.DelayUs, "bufsize": s.BufSize, "close_self": s.Handler == "closeself", "read_close": s.Handler == "readclose"}}}})
+	route := map[string]any{"handle": []any{map[string]any{"handler": "verif_udp", "name": "u", "end_after": s.EndAfter,
+		"delay_us": s.DelayUs, "bufsize": s.BufSize, "close_self": s.Handler == "closeself", "read_close": s.Handler == "readclose"}}}
+	if s.Match {
+		route["match"] = []any{map[string]any{"verif_m1": map[string]any{"id": "any1", "need": 1, "at": 0, "eq": 0, "neg": true}}}
+	}
+	return drive.J([]any{route})
 }
 
 var addrSeq int
@@ -343,6 +361,12 @@ func runScenario(c *fw.Ctx, s *Scenario) {
 					open[e.N] = true
 				case "udp-end":
 					delete(open, e.N)
+					// Nothing in these runs ends a virtual connection but the handler itself: no idle expiry (30 s),
+					// no deadline after matching, no shutdown before the end of the scenario. A Read that reports
+					// an error is a connection ended (or timed out) without cause.
+					if e.S != "end_after" && e.S != "read_close" {
+						report("ended-without-cause", fmt.Sprintf("client %d: a Read on association %d returned %q although the association was neither closed nor idle: the virtual connection ended while the client kept sending", k, e.N, e.S), nil)
+					}
 				}
 			}
 			for _, a := range assocOrder {
